@@ -54,6 +54,7 @@ type c13Run struct {
 	unclean      bool            // the stack accepted an operation on a key/prefix that is not in path.Clean form
 	seen         map[string]bool // keys of operations the stack accepted
 	handed       map[string]bool // keys of all operations handed to the stack
+	handedDirs   map[string]bool // listing prefixes handed to the stack (without the final slash)
 	rejectedPuts []string        // keys of puts the stack rejected (tolerated: irregular key)
 	done         []c13Op
 }
@@ -84,9 +85,17 @@ func (r *c13Run) note(k string) {
 }
 
 func (r *c13Run) notePrefix(p string) {
-	if p != "" {
-		r.note(strings.TrimSuffix(p, "/"))
+	if p == "" {
+		return
 	}
+	d := strings.TrimSuffix(p, "/")
+	if r.tx != nil && c13Irregular(d) {
+		r.txIrregular = true
+	}
+	if r.handedDirs == nil {
+		r.handedDirs = map[string]bool{}
+	}
+	r.handedDirs[d] = true
 }
 
 // accepted records that the stack performed an operation on k without an error.
@@ -106,15 +115,31 @@ func (r *c13Run) acceptedPrefix(p string) {
 	}
 }
 
-// underscorePair: the stack was handed two keys P/_n/... and P/n — on the file
-// backend the directory of the first and the file of the second have one name.
+// underscorePair: the stack was handed a key P/n and a directory P/_n (as a
+// listing prefix or on the way to another key) — on the file backend the file
+// of the first and the directory have one name.
 func (r *c13Run) underscorePair() bool {
-	for k1 := range r.handed {
-		s1 := strings.Split(k1, "/")
-		for i := 0; i+1 < len(s1); i++ {
-			if strings.HasPrefix(s1[i], "_") && r.handed[strings.Join(append(append([]string{}, s1[:i]...), s1[i][1:]), "/")] {
-				return true
-			}
+	dirs := map[string]bool{}
+	addDirs := func(p string, self bool) {
+		segs := strings.Split(p, "/")
+		n := len(segs) - 1
+		if self {
+			n = len(segs)
+		}
+		for i := 1; i <= n; i++ {
+			dirs[strings.Join(segs[:i], "/")] = true
+		}
+	}
+	for k := range r.handed {
+		addDirs(k, false)
+	}
+	for d := range r.handedDirs {
+		addDirs(d, true)
+	}
+	for d := range dirs {
+		i := strings.LastIndexByte(d, '/') + 1
+		if strings.HasPrefix(d[i:], "_") && r.handed[d[:i]+d[i+1:]] {
+			return true
 		}
 	}
 	return false
@@ -131,41 +156,43 @@ func (r *c13Run) tempPair() bool {
 	return false
 }
 
-// leftoverDirs: known file-backend signature — a listing is exactly what the model
-// gives if (some of) the directories on the path of puts that the backend
-// rejected exist as empty folders.
-func (r *c13Run) leftoverDirs(m *c13Model, prefix string, same func(alt *c13Model) bool) bool {
+// leftoverDirs: known file-backend signature — the listing contains folder entries
+// the model does not have, each of them lies on the path of a put that the
+// backend rejected, and with those (empty) folders added the model gives
+// exactly the observed result.
+func (r *c13Run) leftoverDirs(m *c13Model, prefix string, got []string, same func(alt *c13Model) bool) bool {
 	if r.st.base != "file" || len(r.rejectedPuts) == 0 {
 		return false
 	}
-	var dirs []string
-	seen := map[string]bool{}
-	for _, k := range r.rejectedPuts {
-		i := strings.LastIndexByte(k, '/')
-		if i < 0 {
+	have := map[string]bool{}
+	for _, e := range m.children(prefix) {
+		have[e] = true
+	}
+	alt := m.clone()
+	extras := 0
+	for _, e := range got {
+		if have[e] {
 			continue
 		}
-		d := k[:i+1]
-		if d != prefix && strings.HasPrefix(d, prefix) && !seen[d] {
-			seen[d] = true
-			dirs = append(dirs, d)
+		if !strings.HasSuffix(e, "/") {
+			return false
 		}
-	}
-	if len(dirs) == 0 || len(dirs) > 6 {
-		return false
-	}
-	for mask := 1; mask < 1<<len(dirs); mask++ {
-		alt := m.clone()
-		for i, d := range dirs {
-			if mask&(1<<i) != 0 {
-				alt.put(d+"\x00left-over", nil)
+		onPath := false
+		for _, k := range r.rejectedPuts {
+			// the file system resolves the key the way path.Clean does
+			k = strings.TrimPrefix(path.Clean("/"+k), "/")
+			if i := strings.LastIndexByte(k, '/'); i >= 0 && strings.HasPrefix(k[:i+1], prefix+e) {
+				onPath = true
+				break
 			}
 		}
-		if same(alt) {
-			return true
+		if !onPath {
+			return false
 		}
+		alt.put(prefix+e+"\x00left-over", nil)
+		extras++
 	}
-	return false
+	return extras > 0 && same(alt)
 }
 
 // class narrows a generic class to a known signature where the witness matches it.
@@ -235,7 +262,7 @@ func (r *c13Run) checkList(opid string, got []string, err error, m *c13Model, pr
 	r.acceptedPrefix(prefix)
 	want := m.children(prefix)
 	if !c13EqualStrings(c13Sorted(got), want) {
-		if !r.unclean && r.leftoverDirs(m, prefix, func(alt *c13Model) bool { return c13EqualStrings(c13Sorted(got), alt.children(prefix)) }) {
+		if !r.unclean && r.leftoverDirs(m, prefix, got, func(alt *c13Model) bool { return c13EqualStrings(c13Sorted(got), alt.children(prefix)) }) {
 			return r.fail(c13ClassFileLong, opid, fmt.Sprintf("list(%s) = %s, the immediate children are %s: the extra folders are what a rejected put (%s) left behind", c13Q(prefix), c13QL(got), c13QL(want), c13QL(r.rejectedPuts)), want, got)
 		}
 		if r.pendingKeyOmitted(m, prefix, func(alt *c13Model) bool { return c13EqualStrings(c13Sorted(got), alt.children(prefix)) }) {
@@ -290,7 +317,7 @@ func (r *c13Run) checkPage(opid string, got []string, err error, m *c13Model, pr
 		if r.pendingKeyOmitted(m, prefix, func(alt *c13Model) bool { return c13EqualStrings(got, alt.page(prefix, after, limit)) }) {
 			class = c13ClassOmitPending
 		}
-		if !r.unclean && r.leftoverDirs(m, prefix, func(alt *c13Model) bool { return c13EqualStrings(got, alt.page(prefix, after, limit)) }) {
+		if !r.unclean && r.leftoverDirs(m, prefix, got, func(alt *c13Model) bool { return c13EqualStrings(got, alt.page(prefix, after, limit)) }) {
 			class = c13ClassFileLong
 		}
 		where := ""
@@ -1066,17 +1093,17 @@ func c13WithTxnMins() map[string]int64 {
 }
 
 func TestVerif_C13_Inmem(t *testing.T) {
-	c13Family(t, "c13-inmem", c13InmemBase(false), c13AllLayers, kit.N(400, 16000), kit.N(48, 60), c13CommonMins)
+	c13Family(t, "c13-inmem", c13InmemBase(false), c13AllLayers, kit.N(400, 12000), kit.N(48, 60), c13CommonMins)
 }
 
 func TestVerif_C13_InmemTxn(t *testing.T) {
-	c13Family(t, "c13-inmem-txn", c13InmemBase(true), c13AllLayers, kit.N(400, 16000), kit.N(48, 60), c13WithTxnMins())
+	c13Family(t, "c13-inmem-txn", c13InmemBase(true), c13AllLayers, kit.N(400, 12000), kit.N(48, 60), c13WithTxnMins())
 }
 
 func TestVerif_C13_File(t *testing.T) {
-	c13Family(t, "c13-file", c13FileBase(t), c13AllLayers, kit.N(400, 16000), kit.N(48, 60), c13CommonMins)
+	c13Family(t, "c13-file", c13FileBase(t), c13AllLayers, kit.N(400, 12000), kit.N(48, 60), c13CommonMins)
 }
 
 func TestVerif_C13_Raft(t *testing.T) {
-	c13Family(t, "c13-raft", c13RaftBase(t), c13AllLayers, kit.N(400, 16000), kit.N(48, 60), c13WithTxnMins())
+	c13Family(t, "c13-raft", c13RaftBase(t), c13AllLayers, kit.N(400, 12000), kit.N(48, 60), c13WithTxnMins())
 }
